@@ -143,8 +143,15 @@ impl Property for C19 {
             let keys: Vec<(usize, String)> = serde_json::from_value(unit.info["drv_keys"].clone()).unwrap_or_default();
             let asserts: Vec<(String, String)> = serde_json::from_value(unit.info["asserts"].clone()).unwrap_or_default();
             let gen_rs = unit.module.as_ref().map(|m| m.gen_rs.as_str()).unwrap_or("");
+            // errors of the generated module outside derive lists are C01's subject; bound
+            // assertions that fail next to them are their consequence, not a finding of their own
+            let gen_broken_elsewhere = diags.iter().any(|d| d.file == "gen" && !in_derive(gen_rs, d.line));
             let mut gen_other = false;
             for d in diags {
+                if gen_broken_elsewhere && d.file == "drv" {
+                    gen_other = true;
+                    continue;
+                }
                 if d.file == "drv" {
                     match keys.iter().find(|(l, _)| *l == d.line).and_then(|(_, k)| k.strip_prefix("assert:")).and_then(|i| i.parse::<usize>().ok()).and_then(|i| asserts.get(i)) {
                         Some((ty, what)) => j.violations.push(Violation::new("promised-trait-missing", format!("{ty}: {what} -- {} {}", d.code, d.message))),
